@@ -31,6 +31,8 @@ pub struct Spec {
     pub shards_thorough: u64,
     pub min_evaluations: u64,
     pub min_nontrivial: u64,
+    /// > 0: thorough tier also runs shard 0/<n> of the quick workload under valgrind memcheck
+    pub memcheck_shards: u64,
     pub run: fn(&Ctx) -> Outcome,
 }
 
@@ -43,6 +45,7 @@ pub fn spec(id: &str) -> Option<Spec> {
             shards_thorough: 14,
             min_evaluations: 1_000,
             min_nontrivial: 300,
+            memcheck_shards: 0,
             run: c08::run,
         },
         "C09" => Spec {
@@ -52,6 +55,7 @@ pub fn spec(id: &str) -> Option<Spec> {
             shards_thorough: 14,
             min_evaluations: 100,
             min_nontrivial: 40,
+            memcheck_shards: 0,
             run: c09::run,
         },
         "C10" => Spec {
@@ -61,6 +65,7 @@ pub fn spec(id: &str) -> Option<Spec> {
             shards_thorough: 14,
             min_evaluations: 100,
             min_nontrivial: 50,
+            memcheck_shards: 0,
             run: c10::run,
         },
         "C11" => Spec {
@@ -70,6 +75,7 @@ pub fn spec(id: &str) -> Option<Spec> {
             shards_thorough: 14,
             min_evaluations: 300,
             min_nontrivial: 150,
+            memcheck_shards: 16,
             run: c11::run,
         },
         "C12" => Spec {
@@ -79,6 +85,7 @@ pub fn spec(id: &str) -> Option<Spec> {
             shards_thorough: 14,
             min_evaluations: 10_000,
             min_nontrivial: 500,
+            memcheck_shards: 100,
             run: c12::run,
         },
         "C01" => Spec {
@@ -88,6 +95,7 @@ pub fn spec(id: &str) -> Option<Spec> {
             shards_thorough: 14,
             min_evaluations: 300,
             min_nontrivial: 100,
+            memcheck_shards: 0,
             run: c01::run,
         },
         "C02" => Spec {
@@ -97,6 +105,7 @@ pub fn spec(id: &str) -> Option<Spec> {
             shards_thorough: 14,
             min_evaluations: 500,
             min_nontrivial: 200,
+            memcheck_shards: 0,
             run: c02::run,
         },
         "C03" => Spec {
@@ -106,6 +115,7 @@ pub fn spec(id: &str) -> Option<Spec> {
             shards_thorough: 14,
             min_evaluations: 100,
             min_nontrivial: 40,
+            memcheck_shards: 0,
             run: c03::run,
         },
         "C04" => Spec {
@@ -115,6 +125,7 @@ pub fn spec(id: &str) -> Option<Spec> {
             shards_thorough: 14,
             min_evaluations: 1_000,
             min_nontrivial: 200,
+            memcheck_shards: 48,
             run: c04::run,
         },
         "C05" => Spec {
@@ -124,6 +135,7 @@ pub fn spec(id: &str) -> Option<Spec> {
             shards_thorough: 14,
             min_evaluations: 500,
             min_nontrivial: 200,
+            memcheck_shards: 8,
             run: c05::run,
         },
         "C06" => Spec {
@@ -133,6 +145,7 @@ pub fn spec(id: &str) -> Option<Spec> {
             shards_thorough: 7,
             min_evaluations: 100,
             min_nontrivial: 50,
+            memcheck_shards: 16,
             run: c06::run,
         },
         "C07" => Spec {
@@ -142,6 +155,7 @@ pub fn spec(id: &str) -> Option<Spec> {
             shards_thorough: 14,
             min_evaluations: 10_000,
             min_nontrivial: 1_000,
+            memcheck_shards: 60,
             run: c07::run,
         },
         "C13" => Spec {
@@ -151,6 +165,7 @@ pub fn spec(id: &str) -> Option<Spec> {
             shards_thorough: 14,
             min_evaluations: 1_000,
             min_nontrivial: 300,
+            memcheck_shards: 0,
             run: c13::run,
         },
         "C14" => Spec {
@@ -160,6 +175,7 @@ pub fn spec(id: &str) -> Option<Spec> {
             shards_thorough: 14,
             min_evaluations: 100,
             min_nontrivial: 50,
+            memcheck_shards: 0,
             run: c14::run,
         },
         "C15" => Spec {
@@ -169,6 +185,7 @@ pub fn spec(id: &str) -> Option<Spec> {
             shards_thorough: 14,
             min_evaluations: 500,
             min_nontrivial: 200,
+            memcheck_shards: 0,
             run: c15::run,
         },
         "C16" => Spec {
@@ -178,6 +195,7 @@ pub fn spec(id: &str) -> Option<Spec> {
             shards_thorough: 12,
             min_evaluations: 10_000,
             min_nontrivial: 2_000,
+            memcheck_shards: 60,
             run: c16::run,
         },
         "C17" => Spec {
@@ -187,6 +205,7 @@ pub fn spec(id: &str) -> Option<Spec> {
             shards_thorough: 14,
             min_evaluations: 5_000,
             min_nontrivial: 1_000,
+            memcheck_shards: 40,
             run: c17::run,
         },
         "C18" => Spec {
@@ -196,6 +215,7 @@ pub fn spec(id: &str) -> Option<Spec> {
             shards_thorough: 14,
             min_evaluations: 5_000,
             min_nontrivial: 1_000,
+            memcheck_shards: 24,
             run: c18::run,
         },
         "C19" => Spec {
@@ -205,6 +225,7 @@ pub fn spec(id: &str) -> Option<Spec> {
             shards_thorough: 14,
             min_evaluations: 1_000,
             min_nontrivial: 200,
+            memcheck_shards: 0,
             run: c19::run,
         },
         "C20" => Spec {
@@ -214,6 +235,7 @@ pub fn spec(id: &str) -> Option<Spec> {
             shards_thorough: 14,
             min_evaluations: 100,
             min_nontrivial: 40,
+            memcheck_shards: 0,
             run: c20::run,
         },
         _ => return None,
